@@ -365,6 +365,16 @@ def render(lang: str, funcs: list, indent: str = "    ", gap: int = 1, prefix: s
                 o.emit(0, "const %s = (%s)%s => {" % (f["name"], params, ret))
                 _c_block(o, f["block"], 1, uid, lang)
                 o.emit(0, "};")
+            elif f["style"] == "wrapped":
+                # a callback handed to a wrapper whose result is bound to a name: the function starts one line below that name
+                o.emit(0, "const %s = wrapFn(" % f["name"])
+                facts[f["name"]]["line"] = o.lineno
+                facts[f["name"]]["anonymous"] = True
+                o.emit(1, "(%s)%s => {" % (params, ret))
+                _c_block(o, f["block"], 2, uid, lang)
+                o.emit(1, "},")
+                o.emit(1, "300,")
+                o.emit(0, ");")
             elif f["style"] == "fexpr":  # function expression bound to a name
                 o.emit(0, "const %s = function (%s)%s {" % (f["name"], params, ret))
                 _c_block(o, f["block"], 1, uid, lang)
